@@ -7,7 +7,7 @@
 (* short/long), DS DL (dual).  The abstract value of an object is          *)
 (* [k, a, b]; for a dual object it is its RAW hash.                        *)
 (***************************************************************************)
-EXTENDS Text, Order, Word32, TraceBase, FiniteSets
+EXTENDS ParserMachine, Order, Word32, TraceBase, FiniteSets
 CONSTANT STRICT            \* the build under test uses the strict parser
 VARIABLES l, slots
 vars == <<l, slots>>
@@ -24,6 +24,8 @@ Cap2(T) == IF IsLongT(T) THEN CAP2L ELSE CAP2S
 H(x) == [k |-> x.k, a |-> x.a, b |-> x.b]
 AllEq(obj, v) == \A f \in DOMAIN obj : obj[f] = v
 SENTINEL == 4242
+(* reported, never a verdict: behaviour the properties do not state (parse error kind / offset) *)
+Drift(cond, info) == IF cond THEN TRUE ELSE PrintT("DRIFT " \o ToJson(info))
 
 (* ------------------------------ C04: parsing ------------------------------ *)
 ParseOk(T, r, t) ==
@@ -37,6 +39,9 @@ ParseOk(T, r, t) ==
        /\ (Kind(T).dual => r.ntxt = Format(NormalizeHash(p.h)) /\ r.nvalid = TRUE)
   ELSE /\ r.ok = "err" /\ r.origin = p.origin /\ r.idx = SENTINEL
        /\ r.fb = "same" /\ r.fs \in {"same", "na"}
+       (* the implementation-shaped parser machine also predicts the error kind and offset *)
+       /\ LET m == PParse(Kind(T), STRICT, t) IN
+          Drift(~m.ok /\ m.origin = p.origin /\ r.kind = m.kind /\ r.off = m.off, <<"parse-error-kind-offset", T, t, m>>)
 EvParse == /\ Ev("parse")
            /\ \A T \in Types :
                 Expect(T \in DOMAIN E.r /\ ParseOk(T, E.r[T], E.t), <<l, "parse", T, Parse(Kind(T), STRICT, E.t)>>)
